@@ -159,14 +159,32 @@ pub(super) mod udp {
     pub struct DatagramPacketCodec<'a, const N: usize> {
         codec: SessionCodec<'a, N>,
         session: Session<N>,
-        filter: PacketWindowFilter,
+        // One packet-id window per server session. A server that was restarted, or whose association for this client
+        // expired, answers under a new session id and its packet ids start at 1 again: they are new in that session.
+        // The windows of the latest few server sessions are kept, so a copy of a datagram of an earlier one stays refused.
+        filters: Vec<(u64, PacketWindowFilter)>,
         // the legacy datagram format carries no packet ids
         check_packet_id: bool,
     }
 
+    const SERVER_SESSIONS_REMEMBERED: usize = 8;
+
     impl<const N: usize> DatagramPacketCodec<'_, N> {
         pub fn new(codec: SessionCodec<N>, check_packet_id: bool) -> DatagramPacketCodec<'_, N> {
-            DatagramPacketCodec { codec, session: Session::from(Mode::Client), filter: PacketWindowFilter::default(), check_packet_id }
+            DatagramPacketCodec { codec, session: Session::from(Mode::Client), filters: Vec::new(), check_packet_id }
+        }
+
+        fn filter_of(&mut self, server_session_id: u64) -> &mut PacketWindowFilter {
+            match self.filters.iter().position(|(id, _)| *id == server_session_id) {
+                Some(i) => &mut self.filters[i].1,
+                None => {
+                    if self.filters.len() == SERVER_SESSIONS_REMEMBERED {
+                        self.filters.remove(0);
+                    }
+                    self.filters.push((server_session_id, PacketWindowFilter::default()));
+                    &mut self.filters.last_mut().unwrap().1
+                }
+            }
         }
     }
 
@@ -190,7 +208,7 @@ pub(super) mod udp {
             } else {
                 match self.codec.decode(src)? {
                     Some((content, addr, session)) => {
-                        if self.check_packet_id && !self.filter.validate_packet_id(session.packet_id, u64::MAX) {
+                        if self.check_packet_id && !self.filter_of(session.server_session_id).validate_packet_id(session.packet_id, u64::MAX) {
                             bail!("[udp] packet_id out of window; session={}", session)
                         }
                         self.session.server_session_id = session.server_session_id;
